@@ -279,6 +279,10 @@ def run(ctx):
     n = ctx.pick(60, 400)
     for i in range(n):
         model = A.gen_model(ctx.rng)
+        if i % 12 == 7 and model["consts"]:
+            # (a quota, not a chance: the same constant name on two lines)
+            nm0, v0 = model["consts"][0][0], model["consts"][0][1]
+            model["consts"].insert(ctx.rng.randint(1, len(model["consts"])), (nm0, str(float(v0) + 1.5)) if len(model["consts"][0]) == 2 else model["consts"][0])
         if i % 5 == 4:
             model = A.mirror_model(model)       # the conjugate process: Dbar0 -> K+ pi- ..., every name in its conjugate spelling
             ctx.hit("conjugate-event-type")
